@@ -13,6 +13,7 @@ import Driver.Verify
 import Driver.Proto
 import Driver.Sync
 import Driver.Contracts
+import Driver.RewardsNode
 /-
 One line per handler object. The first handler that understands a line answers it.
 -/
@@ -38,7 +39,8 @@ def registry : List Obj := [
   pureObj VerifyD.pureVerify,
   pureObj pureProto,
   mkObj ([] : SyncSt) syncStep,
-  contractObj
+  contractObj,
+  rewardsNodeObj
 ]
 
 end ZV.Driver
